@@ -353,6 +353,19 @@ def _applicable(world, pre, r, do):
         if not ok:
             return ok, why
         return True, ""
+    if do == "trace_out" and r["entry"] == "ps":
+        # the partial trace asked of the product-space object itself (ce.product_states[i].trace_out):
+        # members of ONE product space, named in its storage order, not necessarily the leading ones
+        on = r["on"]
+        if not on or len(set(on)) != len(on) or r.get("ce") not in world.ces:
+            return False, "targets"
+        if not all(_exists(pre, n) and _live(pre, n) and _in_class(world, n, r["ce"]) for n in on):
+            return False, "target-not-live"
+        b = pre.block_of(on[0])
+        if b is None or b.kind != "ps" or any(pre.block_of(n) is not b for n in on):
+            return False, "not-one-product-space"
+        pos = [list(b.members).index(n) for n in on]
+        return (pos == sorted(pos)), "storage-order"
     if do == "trace_out":
         on = r["on"]
         entry = r["entry"]
@@ -462,6 +475,23 @@ def _entry_obj(world, r):
     return None
 
 
+_SUBCLASS_CACHE = {}
+
+
+def _subclasses(*bases):
+    out = []
+    for b in bases:
+        if b not in _SUBCLASS_CACHE:
+            _SUBCLASS_CACHE[b] = type("User" + b.__name__, (b,), {"__doc__": "a user's subclass; adds nothing"})
+        out.append(_SUBCLASS_CACHE[b])
+    return out
+
+
+def _flag(r, v):
+    """Boolean flags as the caller may hold them: a Python bool, or the numpy bool a comparison returns."""
+    return np.bool_(v) if r.get("flagtype") == "np" else bool(v)
+
+
 def _execute(world, pre, r, do):
     from photon_weave.photon_weave import Config
     from photon_weave.state.composite_envelope import CompositeEnvelope
@@ -475,7 +505,12 @@ def _execute(world, pre, r, do):
             from photon_weave.state.fock import Fock
             from photon_weave.state.polarization import Polarization
 
-            env = Envelope(fock=Fock(), polarization=Polarization(PolarizationLabel(r.get("pol", "H"))))
+            if r.get("subclass"):
+                # user subclasses of the library's classes (a photon source model, a quantum dot, ...)
+                EnvT, FockT, PolT = _subclasses(Envelope, Fock, Polarization)
+                env = EnvT(fock=FockT(), polarization=PolT(PolarizationLabel(r.get("pol", "H"))))
+            else:
+                env = Envelope(fock=Fock(), polarization=Polarization(PolarizationLabel(r.get("pol", "H"))))
         else:
             env = Envelope()
         if r.get("fock", 0):
@@ -487,7 +522,7 @@ def _execute(world, pre, r, do):
         world.add_env(r["name"], env, r["client"])
         return ExecResult("ok", addressed=[])
     if do == "mk_custom":
-        cs = CustomState(int(r["d"]))
+        cs = (_subclasses(CustomState)[0] if r.get("subclass") else CustomState)(int(r["d"]))
         if r.get("label", 0):
             cs.state = int(r["label"])
         world.add_custom(r["name"], cs, r["client"])
@@ -556,9 +591,10 @@ def _execute(world, pre, r, do):
             world.user_arrays.append(("kraus", a, _digest(a)))
         subs = [world.sub(n) for n in r["on"]]
         entry = r["entry"]
-        kw = {"identity_check": False} if r.get("idc") is False else {}
+        kw = {"identity_check": _flag(r, False)} if r.get("idc") is False else {}
+        world.last_np_kraus = (arrs, list(r["on"]), entry, r.get("env"), r.get("ce"), dims) if r.get("arr") == "np" else None
         if entry == "state" and r.get("style") == "pos":
-            ret = subs[0].apply_kraus(arrs, r.get("idc") is not False)
+            ret = subs[0].apply_kraus(arrs, _flag(r, r.get("idc") is not False))
         elif entry == "state":
             ret = subs[0].apply_kraus(arrs, **kw)
         elif entry == "env":
@@ -574,8 +610,8 @@ def _execute(world, pre, r, do):
             world.user_arrays.append(("povm", a, _digest(a)))
         subs = [world.sub(n) for n in r["on"]]
         entry = r["entry"]
-        destr = bool(r.get("destr", True))
-        partial = bool(r.get("partial", False))
+        destr = _flag(r, r.get("destr", True))
+        partial = _flag(r, r.get("partial", False))
         style = r.get("style", "kw")
         kwd = {"destructive": destr} if (style == "kw" or not destr) else {}
         if entry == "state" and style == "pos":
@@ -591,7 +627,7 @@ def _execute(world, pre, r, do):
     if do == "measure":
         subs = [world.sub(n) for n in r.get("on", [])]
         entry = r["entry"]
-        sep, destr = bool(r.get("sep", False)), bool(r.get("destr", True))
+        sep, destr = _flag(r, r.get("sep", False)), _flag(r, r.get("destr", True))
         style = r.get("style", "kw")
         kw = {"separate_measurement": sep, "destructive": destr}
         if style != "kw":
@@ -647,6 +683,14 @@ def _execute(world, pre, r, do):
             ret = subs[0].trace_out()
         elif entry == "env":
             ret = world.envs[r["env"]].trace_out(*subs)
+        elif entry == "ps":
+            ret = None
+            for ps in world.ces[r["ce"]].product_states:
+                if any(so is subs[0] for so in ps.state_objs):
+                    ret = ps.trace_out(*subs)
+                    break
+            else:
+                raise RuntimeError("harness: product space not found")
         else:
             ret = world.ces[r["ce"]].trace_out(*subs)
         return ExecResult("ok", ret=ret, addressed=S)
@@ -818,6 +862,18 @@ def execute_fault(world, pre, r):
         D = int(np.prod(dims))
         mats = R.dilation_kraus(D, 2, int(r.get("seed", 5)))
         how = r.get("how", "scale")
+        if how == "inplace":
+            # the numpy arrays of the channel that was just accepted, changed in place by the caller
+            # and handed in again: the very same objects, no longer trace preserving
+            last = getattr(world, "last_np_kraus", None)
+            world.last_np_kraus = None
+            if last is None or last[1] != list(on) or last[2] != entry or last[5] != dims:
+                return ExecResult("skipped", msg="no-accepted-numpy-set")
+            for a in last[0]:
+                a *= 1.3
+            world.user_arrays = [(l, a, _digest(a)) for (l, a, d) in world.user_arrays]
+            ret = call_kraus(last[0])
+            return ExecResult("ok", ret=ret, addressed=S, info={"returned": ret})
         if D == 1 and how in ("imag", "offdiag"):
             how = "diag1"
         if how == "scale":
@@ -868,6 +924,8 @@ def execute_fault(world, pre, r):
             mats = [m / np.sqrt(2) for m in R.dilation_kraus(D0, 2, int(r.get("seed", 5)))] + [np.eye(D0 + 1) / np.sqrt(2)]
         elif shape == "vector":
             mats = [np.ones(D0) / np.sqrt(D0)]
+        elif shape == "empty":
+            mats = []
         else:
             raise ValueError(shape)
         arrs = specs.to_library_arrays(mats)
